@@ -47,7 +47,7 @@ def _c(*st):
 PROGRAMS = {
     # one DebugBatch name only: two names would tie on priority and the tie-break (set order) is arbitrary by design
     "dbi": ("P", _t(_y(_L(_c(_y(("dbi", "x")), _y(("dbi", "x"))), _c(_y(("dbi", "x"))), ("dbi", "x"))), _y(("dbi", "x"))), (), ()),
-    "dedup": ("P", _t(_y(_L(("dd", "f", 1, "pos"), ("dd", "f", 1, "kw"), _c(_y(IA), _y(("dd", "f", 1, "def"))))), _y(("dd", "mx", 1, "pos"))), (), (("ddbody", "y2"),)),
+    "dedup": ("P", _t(_y(_L(("dd", "f", 1, "pos"), ("dd", "f", 1, "kw"), _c(_y(IA), _y(("dd", "f", 1, "def"))))), _y(_L(("dd", "mx", 1, "pos"), ("dd", "h", 1, "pos")))), (), (("ddbody", "y2"),)),
     "ctx": ("P", _t(("with", "S0", (_y(_L(_c(("with", "A", (_y(IA), ("probe",)))), _c(("probe",), _y(IB), ("probe",)))),))), (), ()),
     "batch": ("P", _t(_y(_L(_c(_y(IA), _y(IB)), _c(_y(IB), _y(IA)))), ("probe",)), (), ()),
     "sync": ("P", _t(_y(_L(_c(("sync", _t(_y(IA)), "call"), _y(IB)), _c(_y(IB))))), (), ()),
